@@ -33,6 +33,9 @@ def main():
   if '--tier' in sys.argv:
     tier = sys.argv[sys.argv.index('--tier') + 1]
   confirm = '--no-confirm' not in sys.argv
+  benign = '--benign' in sys.argv   # a CORRECT change: the check must hold
+  if benign:
+    confirm = False
   meta = {'id': sid, 'property': prop, 'worktree': wt}
   env = dict(os.environ, PYTHONPATH=wt)
   rc, diff = sh('git diff -- matched_markets', cwd=wt)
@@ -70,6 +73,18 @@ def main():
                      failed == base}
     meta['confirmed'] = (rc_orig == 0 and rc_changed == 1 and failed == base
                          and bool(summary) and '529 passed' in summary[0])
+  if benign:
+    rc, out = sh('%s -m pytest -q -p no:cacheprovider -n 8 '
+                 'matched_markets/tests 2>&1 | tail -40' % PY, cwd=wt)
+    failed = sorted(l.split(' - ')[0] for l in out.splitlines()
+                    if l.startswith('FAILED'))
+    base = sorted(l.strip() for l in open('/tmp/baseline_failed.txt')
+                  if l.strip())
+    summary = [l for l in out.splitlines() if ' passed' in l][-1:]
+    print('tests with the change: %s; failed set == baseline: %s' % (
+        summary, failed == base))
+    meta['tests'] = {'summary': summary,
+                     'same_failures_as_baseline': failed == base}
   out_dir = os.path.join(wt, 'out')
   shutil.rmtree(out_dir, ignore_errors=True)
   env2 = dict(os.environ, VERIF_REPO=wt, VERIF_OUT=out_dir)
@@ -85,7 +100,10 @@ def main():
                    'caught': rc == 1,
                    'violation_lines': [l[:500] for l in lines
                                        if l.startswith('violation class')]}
-  dst = os.path.join(VERIF, 'seeded', sid)
+  if benign:
+    meta['check']['false_alarm'] = rc != 0
+    meta['check'].pop('caught')
+  dst = os.path.join(VERIF, 'benign' if benign else 'seeded', sid)
   os.makedirs(dst, exist_ok=True)
   with open(os.path.join(dst, 'patch.diff'), 'w') as f:
     f.write(diff)
